@@ -624,3 +624,51 @@ Proof.
   - destruct (is_empty_or_space U (b :: t)); [eauto|].
     destruct (negb (latin1_is_upper b) && negb (latin1_is_lower b)); eauto.
 Qed.
+
+(* ---------- config.NewConfig is transparent ---------- *)
+Lemma default_not_blank U : is_empty_or_space U default_format = false.
+Proof. reflexivity. Qed.
+
+Lemma new_config_nonempty U t : t <> [] ->
+  new_config U t = if is_empty_or_space U t then Err err_config else Ok t.
+Proof. intro H. unfold new_config. destruct t; [congruence|reflexivity]. Qed.
+
+Lemma new_config_empty U : new_config U [] = Ok default_format.
+Proof. reflexivity. Qed.
+
+Lemma config_transparent U t content : t <> [] ->
+  (is_empty_or_space U t = true -> configured_format U t content = Err err_config) /\
+  (is_empty_or_space U t = false -> configured_format U t content = file_naming_format U t content).
+Proof.
+  intro H. unfold configured_format. rewrite new_config_nonempty by assumption.
+  split; intros ->; reflexivity.
+Qed.
+
+Lemma config_empty U content : configured_format U [] content = file_naming_format U default_format content.
+Proof. reflexivity. Qed.
+
+(* whatever NewConfig lets through is the template itself (or the default for the empty one) *)
+Lemma new_config_verbatim U t f : new_config U t = Ok f -> f = effective_template t.
+Proof.
+  unfold new_config, effective_template. destruct t as [|b t'].
+  - rewrite default_not_blank. intros [= <-]. reflexivity.
+  - destruct (is_empty_or_space U (b :: t')); [discriminate|]. intros [= <-]. reflexivity.
+Qed.
+
+(* the configured path either rejects or computes the Spec of the verbatim template *)
+Lemma configured_spec U t content :
+  configured_format U t content = Err err_config \/
+  configured_format U t content =
+    match spec_configured U t content with Some r => Ok r | None => Err (reject_code (effective_template t)) end.
+Proof.
+  unfold configured_format, spec_configured. destruct (new_config U t) as [f|e|] eqn:E.
+  - right. apply new_config_verbatim in E. subst f. cbn [bind]. apply fnf_spec.
+  - left. unfold new_config in E. destruct (is_empty_or_space U _); [|discriminate]. inversion E. reflexivity.
+  - unfold new_config in E. destruct (is_empty_or_space U _); discriminate.
+Qed.
+
+Lemma configured_total U t content : configured_format U t content <> Panic.
+Proof.
+  destruct (configured_spec U t content) as [-> | ->]; [discriminate|].
+  destruct (spec_configured U t content); discriminate.
+Qed.
